@@ -1351,6 +1351,60 @@ pub fn c12_check(case: &Case, rng: &mut Rng, threads: usize, reps: usize, calls_
         }
         drop(junk);
     }
+    // in-place edits: the result is a function of the current coordinate values only - not of where the operand lives,
+    // how long its rings are, its bounding box, or what was computed from the same buffers before
+    if reps > 0 {
+        let mut gm = ga.clone();
+        for op in OPS {
+            let before = guarded(n, || gm.boolean(&gb, lib_op(op)));
+            // move one vertex that attains no bounding-box extreme halfway towards the midpoint of its neighbours
+            let Some((lo, hi)) = bbox(&from_geo(&gm)) else { break };
+            let mut edited = false;
+            'search: for _ in 0..8 {
+                if gm.0.is_empty() {
+                    break;
+                }
+                let pi = rng.below(gm.0.len() as u64) as usize;
+                let len = gm.0[pi].exterior().0.len();
+                if len < 5 {
+                    continue;
+                }
+                let vi = 1 + rng.below(len as u64 - 2) as usize;
+                let (p, a, b) = (gm.0[pi].exterior().0[vi], gm.0[pi].exterior().0[vi - 1], gm.0[pi].exterior().0[vi + 1]);
+                if p.x == lo.0 || p.x == hi.0 || p.y == lo.1 || p.y == hi.1 {
+                    continue;
+                }
+                let q = geo_types::Coord { x: (p.x * 2.0 + a.x + b.x) / 4.0, y: (p.y * 2.0 + a.y + b.y) / 4.0 };
+                if q == p {
+                    continue;
+                }
+                gm.0[pi].exterior_mut(|ls| ls.0[vi] = q);
+                edited = true;
+                break 'search;
+            }
+            if !edited {
+                continue;
+            }
+            // the edit may make the operand invalid (results then need not be meaningful, the call may even fail) -
+            // but whatever happens must be what a fresh thread gets for equal copies
+            let after = guarded(n, || gm.boolean(&gb, lib_op(op)));
+            let (gm2, gb2) = (gm.clone(), gb.clone());
+            let fresh = std::thread::spawn(move || guarded(n, || gm2.boolean(&gb2, lib_op(op)))).join().map_err(|_| ("harness".to_string(), "reference thread panicked".to_string()))?;
+            *counts.entry("in-place-edit-comparisons".into()).or_insert(0) += 1;
+            let _ = before;
+            match (after, fresh) {
+                (Ok(x), Ok(y)) => {
+                    if bits_of(&x) != bits_of(&y) {
+                        return Err(("determinism".into(), format!("{} after an in-place edit of one vertex returned a result different from the same call on equal copies in a fresh thread (stale state from the call before the edit?)", op.name())));
+                    }
+                }
+                (Err(_), Err(_)) => {}
+                (x, y) => {
+                    return Err(("determinism".into(), format!("{} after an in-place edit: one of the two equal calls failed and the other did not ({:?} vs {:?})", op.name(), x.is_ok(), y.is_ok())));
+                }
+            }
+        }
+    }
     // concurrently from several threads on shared operands; history of (thread, call, input hash, output hash)
     if threads > 0 {
         let ga = Arc::new(ga);
@@ -1460,6 +1514,44 @@ pub fn c12_worker(ctx: &mut Ctx) {
         for (k, v) in counts {
             ctx.cnt(&k, v);
         }
+    }
+    // timing probes: the result must not depend on how long the call takes. (1) the same fixed inputs are run in every
+    // build variant (the sanitizer builds are 5-50x slower) and the supervisor compares the result hashes across
+    // variants; (2) natively, the sweep is stretched to several seconds by a delay injected at hook H1 and the result is
+    // compared with the undelayed one.
+    if ctx.variant != "miri" && ctx.only_index.is_none() {
+        let mut probes = serde_json::Map::new();
+        let (a, b) = comb(if ctx.variant == "valgrind" { 1000 } else { 2500 });
+        let probe_ops: Vec<Op> = OPS.iter().cloned().filter(|o| (*o as u64) % ctx.nshards.min(4) == ctx.shard % ctx.nshards.min(4)).collect();
+        for op in probe_ops {
+            ctx.begin("probe", op as u64, "");
+            ctx.evaluations += 1;
+            match run(&a, &b, op, false) {
+                Ok(r) => {
+                    let mut h = crate::util::Hasher128::default();
+                    hash_mp(&mut h, &r);
+                    probes.insert(format!("comb-{}-{}", a.len(), op.name()), json!(format!("{:016x}", h.low())));
+                    ctx.cnt("cross_variant_probe_results", 1);
+                    if !ctx.is_slow_variant() && ctx.shard < 4 {
+                        // at least 20000 sweep events x 150 microseconds = 3 s or more
+                        geo_booleanop::verif::set_step_delay(geo_booleanop::verif::Loop::Sweep, 150_000);
+                        let t0 = std::time::Instant::now();
+                        let slowed = run(&a, &b, op, false);
+                        geo_booleanop::verif::set_step_delay(geo_booleanop::verif::Loop::Sweep, 0);
+                        ctx.cnt("delayed_sweeps", 1);
+                        ctx.max("max_delayed_sweep_ms", t0.elapsed().as_millis() as u64);
+                        match slowed {
+                            Ok(r2) if r2 == r => {}
+                            Ok(_) => ctx.violation("determinism:timing", &format!("{} of a {}-rectangle comb returns a different result when the sweep is slowed down by an injected delay of 150 microseconds per event ({} ms in total)", op.name(), a.len(), t0.elapsed().as_millis()), json!({"kind": "generated", "property": "C12", "label": "probe", "index": op as u64, "seed": ctx.seed, "tier": ctx.tier.name(), "variant": ctx.variant})),
+                            Err(f) => ctx.violation(&f.0, &format!("{} of a comb fails when the sweep is slowed down: {}", op.name(), f.1), json!({"kind": "generated", "property": "C12", "label": "probe", "index": op as u64, "seed": ctx.seed, "tier": ctx.tier.name(), "variant": ctx.variant})),
+                        }
+                    }
+                }
+                Err(f) => ctx.violation(&f.0, &format!("probe {} failed: {}", op.name(), f.1), json!({"kind": "generated", "property": "C12", "label": "probe", "index": op as u64, "seed": ctx.seed, "tier": ctx.tier.name(), "variant": ctx.variant})),
+            }
+            ctx.end();
+        }
+        ctx.monitor.insert("probe_hashes".into(), serde_json::Value::Object(probes));
     }
     let slow = ctx.is_slow_variant();
     let miri = ctx.variant == "miri";
